@@ -25,10 +25,10 @@ Definition fmt_parse_offset (dp : list Z) (mode_sep : Z) : option (Z * list Z) :
                     if consumed2 ap' bp then
                       let bp' := match bp with c :: r => if negb (mode_sep =? 0) && (c =? mode_sep) then r else bp | [] => bp end in
                       match parse_int32 bp' 2 0 59 with
-                      | Some (se, cp) => if consumed2 bp' cp then (mi, se, cp) else (mi, se, bp)
+                      | Some (se, cp) => if consumed2 bp' cp then (mi, se, cp) else (mi, 0, bp)
                       | None => (mi, 0, bp)
                       end
-                    else (mi, 0, ap)
+                    else (0, 0, ap)
                 | None => (0, 0, ap)
                 end in
               let off := ((hours * 60 + minutes) * 60) + seconds in
